@@ -155,17 +155,28 @@ def audit_theorems(names):
     return res
 
 
+def built_sources():
+    """the .lean files that are part of the library (reachable from LnnVerif.lean) plus the driver"""
+    import re
+    seen, todo = set(), ["LnnVerif"]
+    while todo:
+        m = todo.pop()
+        path = os.path.join(LEAN_DIR, m.replace(".", "/") + ".lean")
+        if m in seen or not os.path.exists(path):
+            continue
+        seen.add(m)
+        for imp in re.findall(r"^import\s+(LnnVerif[\w.]*)", open(path).read(), flags=re.M):
+            todo.append(imp)
+    files = [os.path.join(LEAN_DIR, m.replace(".", "/") + ".lean") for m in sorted(seen)]
+    return files + [os.path.join(LEAN_DIR, "Driver.lean")]
+
+
 def grep_forbidden():
-    """scan lean sources for sorry/admit/axiom/native_decide...; comment text is ignored"""
+    """scan the library's lean sources for sorry/admit/axiom/native_decide...; comment text is ignored"""
     import re
     hits = []
-    for root, _, files in os.walk(LEAN_DIR):
-        if ".lake" in root:
-            continue
-        for fn in files:
-            if not fn.endswith(".lean"):
-                continue
-            path = os.path.join(root, fn)
+    if True:
+        for path in built_sources():
             txt = open(path).read()
             # strip block comments and line comments
             txt2 = re.sub(r"/-.*?-/", lambda m: "\n" * m.group(0).count("\n"), txt, flags=re.S)
@@ -213,6 +224,14 @@ class Report:
         self.extra = {}
         self.assumptions = []
         self._hashes = set()
+        # replays of earlier runs of this check are stale
+        if os.path.isdir(REPLAY_DIR):
+            for fn in os.listdir(REPLAY_DIR):
+                if fn.startswith(f"{pid}_{tier}_"):
+                    try:
+                        os.unlink(os.path.join(REPLAY_DIR, fn))
+                    except OSError:
+                        pass
 
     def obligation(self, name, ok, detail=""):
         self.obligations.append((name, bool(ok), detail))
@@ -233,7 +252,29 @@ class Report:
 
     MAX_REPLAYS = 3
 
+    def enable_known(self, fid):
+        """the witness of a listed known finding reproduced on this run: print its KNOWN-FINDING line and
+        do not report further failing inputs of exactly that class as new violations"""
+        for f in load_known_findings():
+            if f["id"] == fid and f["property"] == self.pid:
+                self._known_on = getattr(self, "_known_on", {})
+                self._known_on[fid] = f
+                self.known.append(f"{fid}: {f['what']}")
+
+    def _matches_known(self, kind, detail):
+        for fid, f in getattr(self, "_known_on", {}).items():
+            m = f.get("match", {})
+            if m.get("kind") != kind:
+                continue
+            if all(isinstance(detail, dict) and detail.get(k) == v for k, v in m.get("detail", {}).items()):
+                return fid
+        return None
+
     def violation(self, kind, detail, replay_obj, no_input=False):
+        fid = self._matches_known(kind, detail)
+        if fid and not no_input:
+            self.bump("known_finding_hits_" + fid)
+            return
         os.makedirs(REPLAY_DIR, exist_ok=True)
         k = len(self.violations)
         if k >= self.MAX_REPLAYS and not no_input:
